@@ -747,6 +747,7 @@ fn conclude(v: Verdict<'_>, j: Judged, ctx: &mut RunCtx) -> Result<bool, Outcome
         // entry was only ever accepted as the last one applied
         let only_last = v.path == "seam" && v.pos.is_some_and(|p| j.wrong.iter().all(|(t, _, _)| *t == p + 1));
         let via = match v.path {
+            _ if j.wrong.iter().all(|(_, m, _)| *m == "recovery") => "_via_runtime_recovery",
             "rebuild" if v.is_checkpoint => "_via_add_checkpoint",
             "rebuild" => "_via_append",
             _ => "",
@@ -780,6 +781,12 @@ fn deliver_entries(hist: &Hist, wl: &WlHist, t: &Tamper, overrides: Vec<(u64, Pr
     if valid_alternative_tip(wl, &overrides, truncate) {
         ctx.hit("reach.skipped_valid_alternative_tip");
         return None;
+    }
+    // Runtime recovery indexes transported entries by their own coordinate, so an entry that names
+    // another worldline does not stand in for this worldline's entry there (it merely leaves this
+    // worldline out of the transport, which recovery cannot know about): not a recovery-path tamper.
+    if truncate.is_none() && overrides.iter().all(|(_, e)| e.worldline_id == wl.id) {
+        j.merge(recovery_judge(hist, wl, &overrides, focus, ctx));
     }
     match t.path {
         Path::Seam => {
@@ -1488,4 +1495,58 @@ fn apply_suffix_tamper(hist: &Hist, t: &Tamper, f: SfxField, ctx: &mut RunCtx) -
         ctx.hit(&format!("reach.accepted_harmless.{name}"));
     }
     Ok(true)
+}
+
+/// Transported entries handed to runtime recovery (`WorldlineRuntime::restore_causal_runtime_history`),
+/// which re-verifies them against the retained (untampered) provenance service: the altered entry is
+/// rejected with a typed error, or the recovered runtime (global tick, frontiers, state roots) equals
+/// the recovery from untampered entries.
+fn recovery_judge(hist: &Hist, wl: &WlHist, overrides: &[(u64, ProvenanceEntry)], focus: u64, ctx: &mut RunCtx) -> Judged {
+    use warp_core::WorldlineRuntime;
+    let mut j = Judged::default();
+    let build = || -> Option<WorldlineRuntime> {
+        let mut rt = WorldlineRuntime::new();
+        for w in &hist.wls {
+            rt.register_worldline(w.id, w.base.clone()).ok()?;
+        }
+        Some(rt)
+    };
+    let observe = |rt: &WorldlineRuntime| -> String {
+        let mut s = format!("global_tick={:?}", rt.global_tick());
+        for w in &hist.wls {
+            if let Some(f) = rt.worldlines().get(&w.id) {
+                s.push_str(&format!(";wl{}:tick={} root={}", w.idx, f.frontier_tick().as_u64(), hex::encode(&f.state().state_root()[..8])));
+            }
+        }
+        s
+    };
+    let honest: Vec<ProvenanceEntry> = hist.wls.iter().flat_map(|w| w.entries.iter().cloned()).collect();
+    let Some(mut rt0) = build() else { return j };
+    if !matches!(crate::kernel::catch(|| rt0.restore_causal_runtime_history(&hist.plain, &honest, &[])), Ok(Ok(()))) {
+        ctx.hit("reach.recovery_baseline_unavailable");
+        return j;
+    }
+    let obs0 = observe(&rt0);
+    let mut transported = honest;
+    for (tick, e) in overrides {
+        if let Some(slot) = transported.iter_mut().find(|x| x.worldline_id == wl.id && x.worldline_tick.as_u64() == *tick) {
+            *slot = e.clone();
+        }
+    }
+    let Some(mut rt1) = build() else { return j };
+    ctx.count("time.verifications", 1);
+    j.calls += 1;
+    match crate::kernel::catch(|| rt1.restore_causal_runtime_history(&hist.plain, &transported, &[])) {
+        Err(p) => j.panics.push((focus, "recovery", p)),
+        Ok(Err(e)) => j.rejected.push((focus, "recovery", format!("{e:?}"))),
+        Ok(Ok(())) => {
+            let obs1 = observe(&rt1);
+            if obs1 == obs0 {
+                j.accepted.push((focus, "recovery"));
+            } else {
+                j.wrong.push((focus, "recovery", format!("recovered runtime differs: {obs1} instead of {obs0}")));
+            }
+        }
+    }
+    j
 }
